@@ -75,6 +75,13 @@ def generate(tier, seed):
         d = common.draw_model(rng, name, dim, "interior", aniso=True, nugget=False)
         d["nugget"] = float(rng.choice([0.0, 0.4]))
         cases.append(("end_to_end", {"model": d, "cseed": int(rng.integers(1 << 30)), "S": {"quick": 600, "thorough": 3000}[tier]}))
+    for name, dim in (("Gaussian", 2), ("Exponential", 3)):
+        # stretched but not rotated, positions stored once (even case seed)
+        d = common.draw_model(rng, name, dim, "interior", aniso=True, nugget=False)
+        d["nugget"] = 0.0
+        d["angles"] = [0.0] * (dim * (dim - 1) // 2)
+        d["anis"] = [round(float(v), 3) for v in np.exp(rng.uniform(0.5, 1.2, size=dim - 1) * rng.choice([-1, 1], size=dim - 1))]
+        cases.append(("end_to_end", {"model": d, "cseed": 2 * int(rng.integers(1 << 29)), "S": {"quick": 600, "thorough": 3000}[tier]}))
     return cases
 
 
@@ -361,8 +368,21 @@ def check_end_to_end(ctx, c):
         warnings.simplefilter("ignore")
         srf = gs.SRF(model, mean=0.0, mode_no=N, seed=1, **({} if model.has_ppf else {"sampling": "mcmc"}))
         vals = np.empty((S, x.shape[1]))
+        stored = c["cseed"] % 2 == 0  # the ensemble idiom of the tutorials: positions set once, then one call per seed
+        x_arg = np.array(x if dim > 1 else x[0], dtype=np.double, order="C")
+        if stored:
+            srf.set_pos(x_arg)
         for s in range(S):
-            vals[s] = srf(x if dim > 1 else x[0], seed=int(rng.integers(1, 1 << 30)))
+            if stored:
+                vals[s] = srf(seed=int(rng.integers(1, 1 << 30)))
+            else:
+                vals[s] = srf(x_arg, seed=int(rng.integers(1, 1 << 30)))
+        if not np.array_equal(x_arg.reshape(x.shape), x):
+            ctx.fail({"model": d["name"], "dim": dim, "what": "positions-handed-over-were-modified"}, f"the caller's position array changed during {S} calls (max {common.maxabs(x_arg.reshape(x.shape) - x):.3e})")
+            return
+        if stored and not np.array_equal(np.asarray(srf.pos, dtype=float).reshape(x.shape), x):
+            ctx.fail({"model": d["name"], "dim": dim, "what": "stored-positions-drift-between-calls"}, f"srf.pos differs from the positions set by {common.maxabs(np.asarray(srf.pos, dtype=float).reshape(x.shape) - x):.3e} after {S} calls")
+            return
     ctx.cell(f"end_to_end/{d['name']}/dim{dim}")
     ctx.event("ensemble_statistics", 3 * x.shape[1])
     mech = {"model": d["name"], "dim": dim}
